@@ -110,6 +110,15 @@ func checkC13() int {
 			}
 		}
 	}
+	// long programs: one process recursing hundreds of times, thousands of rule firings
+	for _, k := range []int{7, 8} {
+		pc := &progCase{ID: fmt.Sprintf("long%d", k), Text: longProgram(k), Source: "long"}
+		for q, mode := range []string{"async", "sync", "np"} {
+			j := jobFor(pc, runCfg{Mode: mode, Monitor: q%2 == 0, Procs: 4, Profile: "none"}, uint64(k), 0)
+			j.WatchdogMs = 20000
+			jobs = append(jobs, j)
+		}
+	}
 	outs := pool.Run(jobs, nil)
 	ran := 0
 	for _, o := range outs {
